@@ -426,6 +426,42 @@ def run_traced(name, spec, seed, size, budgets, evaluator="map", explicit=False,
                 _orig(solutions)
                 tr.events.append(("batch_end", [tr.snap(s) for s in sols], alg.nfe))
             alg.evaluate_all = traced_evaluate_all
+            if name == "NSGAIII" and hasattr(alg, "_reference_point_truncate"):
+                # record what NSGA-III's environmental selection saw and drew in every generation: the population handed in (in
+                # order), the ideal point before and after, and the outcomes of its random.choice calls (choice(seq) is
+                # seq[randrange(len(seq))] on the same generator: the run itself is unchanged)
+                import platypus.algorithms as _pa
+                tr.n3 = []
+                orig_trunc = alg._reference_point_truncate
+
+                class _ChoiceRecorder:
+                    def __init__(self, base, tape):
+                        self._base, self._tape = base, tape
+
+                    def choice(self, seq):
+                        k = self._base.randrange(len(seq))
+                        self._tape.append((len(seq), k))
+                        return seq[k]
+
+                    def __getattr__(self, attr):
+                        return getattr(self._base, attr)
+
+                def traced_truncate(solutions, size, _orig=orig_trunc):
+                    sols = list(solutions)
+                    rec = {"ids": [tr.sid(s_) for s_ in sols], "objs": [[float(o) for o in s_.objectives] for s_ in sols],
+                           "cv": [float(s_.constraint_violation) for s_ in sols], "size": size,
+                           "ideal_before": [float(v) for v in alg.ideal_point], "tape": []}
+                    base = _pa.random
+                    _pa.random = _ChoiceRecorder(base, rec["tape"])
+                    try:
+                        out = _orig(solutions, size)
+                    finally:
+                        _pa.random = base
+                    rec["ideal_after"] = [float(v) for v in alg.ideal_point]
+                    rec["survivors"] = [tr.sid(s_) for s_ in out]
+                    tr.n3.append(rec)
+                    return out
+                alg._reference_point_truncate = traced_truncate
             orig_init = alg.initialize
 
             def traced_initialize(_orig=orig_init):
